@@ -9,13 +9,11 @@ License: Apache-2.0
 
 import math
 
-from datetime import datetime
-
 from labella.d3_time import d3_time
+from labella.d3_time import dt2milli
+from labella.d3_time import milli2dt
 
 d3_identity = lambda x: x
-dt2milli = lambda x: x.timestamp() * 1000.0
-milli2dt = lambda x: datetime.fromtimestamp(x / 1000.0)
 
 
 def drange(start, stop, step=1):
@@ -221,8 +219,8 @@ class d3TimeScaleMilliseconds(object):
             map(
                 milli2dt,
                 range(
-                    math.ceil(int(start.timestamp() * 1000) / step) * step,
-                    int(stop.timestamp() * 1000),
+                    math.ceil(int(dt2milli(start)) / step) * step,
+                    int(dt2milli(stop)),
                     step,
                 ),
             )
@@ -475,7 +473,7 @@ class TimeScale(object):
 
     def ticks(self, interval=None, skip=None):
         extent = d3_scaleExtent(self.domain())
-        extent = list(map(lambda x: x.timestamp() * 1000, extent))
+        extent = list(map(dt2milli, extent))
         method = (
             self.tickMethod(extent, 10)
             if interval is None
